@@ -1574,7 +1574,7 @@ func (c *Conn) executeBatch(ctx context.Context, batch *Batch) *Iter {
 		b := &req.statements[i]
 
 		if len(entry.Args) > 0 || entry.binding != nil {
-			info, err := c.prepareStatement(batch.Context(), entry.Stmt, batch.trace)
+			info, err := c.prepareStatement(ctx, entry.Stmt, batch.trace)
 			if err != nil {
 				return &Iter{err: err}
 			}
@@ -1616,7 +1616,7 @@ func (c *Conn) executeBatch(ctx context.Context, batch *Batch) *Iter {
 		}
 	}
 
-	framer, err := c.exec(batch.Context(), req, batch.trace)
+	framer, err := c.exec(ctx, req, batch.trace)
 	if err != nil {
 		return &Iter{err: err}
 	}
